@@ -178,8 +178,9 @@ def shrink_score(score):
 
 
 # ---- Spec oracle: the sounding notes of a score, written independently of the code -------
-def spec_sounding(score):
-    """{part name: [[pitch, onset, duration, velocity], ...]} per the statement of C03"""
+def spec_sounding(score, keep_ref=False):
+    """{part name: [[pitch, onset, duration, velocity], ...]} per the statement of C03
+    (keep_ref: the reference pitch of a part survives the chords it is absent from, as in the music21 export)"""
     from harness.props.C01 import spec_pitch, spec_chord_deg, spec_arpeggio
     from harness.props.C09 import spec_relative, spec_system
     names = []
@@ -197,7 +198,7 @@ def spec_sounding(score):
             cd = max([sum(F(n["dur"]) for n in notes) for _, notes in c["parts"]], default=F(0))
             part = dict((a, b) for a, b in c["parts"]).get(nm)
             if part is None:
-                ref, cur = None, None
+                ref, cur = (ref if keep_ref else None), None
             else:
                 t = t0
                 for n in part:
